@@ -71,7 +71,12 @@ def make_case(rng):
         for d in dss:
             d["alias"] = d["alias"] or "abc"[dss.index(d)]
     body = make_body(rng, dss, overlap)
-    return {"kind": kind, "dss": dss, "using": using, "rel": rel, "overlap": overlap, "body": body}
+    case = {"kind": kind, "dss": dss, "using": using, "rel": rel, "overlap": overlap, "body": body}
+    if rng.random() < 0.3:
+        # an earlier statement of the same script joins the same operands under the same aliases with another body:
+        # what one join consumes or renames must not leak into the next
+        case["prelude"] = make_body(rng, dss, overlap)
+    return case
 
 
 def qualified_columns(dss):
@@ -274,9 +279,17 @@ def run_case(case, emit):
         comps = [(n, t, "Identifier", False) for n, t in d["ids"]] + [(n, t, "Measure", True) for n, t in d["meas"]]
         dss.append(eng.mkds(d["name"], comps))
         dfs[d["name"]] = eng.mkdf([c[0] for c in comps], [tuple(r) for r in d["rows"]])
-    script = render(case)
+    if case.get("prelude") is not None and not case.get("_is_prelude"):
+        # the prelude statement is judged on its own result DS_p, then the main statement as usual (same run)
+        pre = dict(case, body=case["prelude"], _is_prelude=True)
+        pre.pop("prelude")
+        script = render(pre).replace("DS_r <-", "DS_p <-", 1) + " " + render(case)
+    else:
+        script = render(case)
     exp, meta = model_run(case)
     bodyk = "-".join(b[0] for b in case["body"]) or "none"
+    if case.get("prelude") is not None:
+        bodyk += "+after-" + ("-".join(b[0] for b in case["prelude"]) or "none")
     bucket = (f"{case['kind']}/{len(case['dss'])}/{case['rel']}/using={bool(case['using'])}/body={bodyk}/unmatched=L{int(meta['left_unmatched'])}R{int(meta['right_unmatched'])}/"
               f"overlap={case['overlap']}")
     status, res = eng.call(eng.run, script, eng.structures(*dss), dfs)
